@@ -36,15 +36,18 @@ const (
 // the total read timeout configured when the script contains a "timer fired" step, and how long
 // after its expiry the blocked Read returns
 const (
-	clntTimerT      = 400 * time.Millisecond
-	clntTimerMargin = 200 * time.Millisecond
-	clntSerialSleep = 30 * time.Millisecond
+	clntTimerT       = 400 * time.Millisecond
+	clntTimerMargin  = 200 * time.Millisecond
+	clntSerialSleep  = 30 * time.Millisecond
+	clntCtxDeadline0 = 120 * time.Millisecond // the caller's own deadline (doubled on every retry)
+	clntCtxMargin    = 40 * time.Millisecond
 )
 
 type clntStep struct {
-	ctx, timer, pick bool
-	rd               int
-	data             []byte
+	ctx         int // 0 not done, 1 the caller cancelled, 2 the caller's own deadline expired
+	timer, pick bool
+	rd          int
+	data        []byte // returned together with the error, whatever it is
 }
 
 type clntScript struct {
@@ -55,7 +58,7 @@ type clntScript struct {
 func (s clntScript) val() V {
 	st := make([]V, len(s.steps))
 	for i, x := range s.steps {
-		st[i] = L(Bool(x.ctx), Bool(x.timer), Bool(x.pick), I(x.rd), B(x.data))
+		st[i] = L(I(x.ctx), Bool(x.timer), Bool(x.pick), I(x.rd), B(x.data))
 	}
 	return L(Bool(s.swd), Bool(s.wr), Bool(s.fl), L(st...))
 }
@@ -74,7 +77,21 @@ func clntQuiet() clntStep         { return clntStep{rd: clntRdTimeout} }
 func clntEOF(b []byte) clntStep   { return clntStep{rd: clntRdEOF, data: b} }
 func clntIOErr(b []byte) clntStep { return clntStep{rd: clntRdIOErr, data: b} }
 func clntTimer() clntStep         { return clntStep{timer: true, rd: clntRdTimeout} }
-func clntCtx() clntStep           { return clntStep{ctx: true, rd: clntRdTimeout} }
+func clntCtx() clntStep           { return clntStep{ctx: 1, rd: clntRdTimeout} }
+func clntCtxDeadline() clntStep   { return clntStep{ctx: 2, rd: clntRdTimeout} }
+
+// a chunk delivered together with the read deadline error
+func clntLate(b []byte) clntStep { return clntStep{rd: clntRdTimeout, data: b} }
+
+// the index of the first step at which the caller's own deadline has expired, or -1
+func (s clntScript) deadlineStep() int {
+	for i, x := range s.steps {
+		if x.ctx == 2 {
+			return i
+		}
+	}
+	return -1
+}
 
 // ---------- recorder and hooks ----------
 
@@ -120,6 +137,8 @@ type clntTransport struct {
 	late      bool
 	t0        time.Time     // when Write returned
 	expiry    time.Duration // t0 + expiry: the total read timer has certainly fired
+	ctx       context.Context
+	ctxEnd    time.Time // the caller's deadline (scripts with a ctx step of kind 2)
 }
 
 func (t *clntTransport) Write(p []byte) (int, error) {
@@ -146,6 +165,7 @@ func (t *clntTransport) Read(p []byte) (int, error) {
 	case clntRdData:
 		n = copy(p, st.data)
 	case clntRdTimeout:
+		n = copy(p, st.data)
 		err = &net.OpError{Op: "read", Net: "scripted", Err: os.ErrDeadlineExceeded}
 	case clntRdEOF:
 		n = copy(p, st.data)
@@ -158,8 +178,18 @@ func (t *clntTransport) Read(p []byte) (int, error) {
 	// what the next iteration's select will see
 	if t.pos < len(t.sc.steps) {
 		nx := t.sc.steps[t.pos]
-		if nx.ctx {
+		if nx.ctx == 1 {
 			t.cancel()
+		}
+		if nx.ctx == 2 {
+			// block until the caller's own deadline has passed; it must not have passed before
+			if t.ctx.Err() != nil {
+				t.late = true
+			}
+			time.Sleep(time.Until(t.ctxEnd.Add(clntCtxMargin)))
+			for t.ctx.Err() == nil {
+				time.Sleep(time.Millisecond)
+			}
 		}
 		if nx.timer {
 			// block past the total read timeout
@@ -181,10 +211,10 @@ func (clntAddr) String() string  { return "scripted" }
 
 type clntConn struct{ *clntTransport }
 
-func (c clntConn) LocalAddr() net.Addr              { return clntAddr{} }
-func (c clntConn) RemoteAddr() net.Addr             { return clntAddr{} }
-func (c clntConn) SetDeadline(time.Time) error      { return nil }
-func (c clntConn) SetReadDeadline(time.Time) error  { return nil }
+func (c clntConn) LocalAddr() net.Addr             { return clntAddr{} }
+func (c clntConn) RemoteAddr() net.Addr            { return clntAddr{} }
+func (c clntConn) SetDeadline(time.Time) error     { return nil }
+func (c clntConn) SetReadDeadline(time.Time) error { return nil }
 func (c clntConn) SetWriteDeadline(time.Time) error {
 	c.rec.add(L(I(6)))
 	if c.sc.swd {
@@ -254,25 +284,44 @@ func clntProject(resp packet.Response, err error) V {
 			return vErr(nilv, I(1), I(42))
 		case errors.Is(ce.Err, clntErrFlush):
 			return vErr(nilv, I(1), I(43))
+		case errors.Is(ce.Err, context.Canceled):
+			return vErr(nilv, I(1), I(60))
+		case errors.Is(ce.Err, context.DeadlineExceeded):
+			return vErr(nilv, I(1), I(61))
 		}
 		return vErr(append([]V{nilv, I(1)}, projErrTail(ce.Err)...)...)
 	}
-	if errors.Is(err, context.Canceled) || errors.Is(err, context.DeadlineExceeded) {
+	if errors.Is(err, context.Canceled) {
 		return vErr(nilv, I(0), I(60))
+	}
+	if errors.Is(err, context.DeadlineExceeded) {
+		return vErr(nilv, I(0), I(61))
 	}
 	return vErr(append([]V{nilv, I(0)}, projErrTail(err)...)...)
 }
 
 // clntRunOnce performs the call; returns [result, trace] and whether the timing was unreliable
-func clntRunOnce(c *clntCase, hooks bool) ([]V, bool) {
+func clntRunOnce(c *clntCase, hooks bool, try int) ([]V, bool) {
 	rec := &clntRec{}
 	ctx, cancel := context.WithCancel(context.Background())
 	defer cancel()
+	var ctxEnd time.Time
+	if d := c.sc.deadlineStep(); d >= 0 {
+		// the caller's context has a deadline of its own, far shorter than the read timeout
+		ctxEnd = time.Now().Add(clntCtxDeadline0 << uint(try))
+		if d == 0 {
+			ctxEnd = time.Now().Add(-time.Second)
+		}
+		var cancel2 context.CancelFunc
+		ctx, cancel2 = context.WithDeadline(ctx, ctxEnd)
+		defer cancel2()
+	}
 	timeout := time.Hour
 	if c.sc.hasTimer() {
 		timeout = clntTimerT
 	}
-	tr := &clntTransport{rec: rec, sc: c.sc, cancel: cancel, t0: time.Now(), expiry: timeout + clntTimerMargin}
+	tr := &clntTransport{rec: rec, sc: c.sc, cancel: cancel, t0: time.Now(), expiry: timeout + clntTimerMargin,
+		ctx: ctx, ctxEnd: ctxEnd}
 	if c.kind == 2 {
 		tr.expiry += clntSerialSleep
 	}
@@ -280,7 +329,7 @@ func clntRunOnce(c *clntCase, hooks bool) ([]V, bool) {
 	if c.rq != nil {
 		req = c.rq.req
 	}
-	if len(c.sc.steps) > 0 && c.sc.steps[0].ctx {
+	if len(c.sc.steps) > 0 && c.sc.steps[0].ctx == 1 {
 		cancel()
 	}
 	res := guard(func() V {
@@ -339,7 +388,7 @@ func clntRunCase(c *clntCase) V {
 		var out []V
 		for try := 0; try < 6; try++ {
 			var late bool
-			out, late = clntRunOnce(c, hooks)
+			out, late = clntRunOnce(c, hooks, try)
 			if !late {
 				break
 			}
